@@ -240,27 +240,67 @@ def _run_impl_batch(lines, timeout):
     return res[:len(lines)]
 
 
-def run_impl(lines, budget=None):
-    """Runs the real code on all lines, in batches, within a wall-clock budget (seconds); lines
-    not reached are marked SKIPPED (the caller drops them and says so)."""
+def workers_for(prop=None):
+    """number of harness / driver processes run side by side; properties whose engines are
+    sensitive to CPU contention (real Quinn loopback, OS threads parked at hooks) say
+    `parallel = False`"""
+    if prop is not None and not getattr(prop, "parallel", True):
+        return 1
+    try:
+        w = int(os.environ.get("VERIF_WORKERS", "0") or "0")
+    except ValueError:
+        w = 0
+    if w <= 0:
+        w = max(1, min(8, (os.cpu_count() or 2) // 2))
+    return w
+
+
+def run_impl(lines, budget=None, workers=1):
+    """Runs the real code on all lines, in batches (each batch a fresh process, `workers` of them
+    side by side), within a wall-clock budget (seconds); lines not reached are marked SKIPPED
+    (the caller drops them and says so)."""
     if budget is None:
         return _run_impl_batch(lines, 3000)
-    res = []
     t0 = time.time()
     step = 2000
-    for i in range(0, len(lines), step):
+    starts = list(range(0, len(lines), step))
+
+    def one(i):
         left = budget - (time.time() - t0)
+        n = min(step, len(lines) - i)
         if left <= 0:
-            res.extend([SKIPPED] * (len(lines) - i))
-            break
-        res.extend(_run_impl_batch(lines[i:i + step], left))
+            return [SKIPPED] * n
+        return _run_impl_batch(lines[i:i + step], left)
+
+    if workers <= 1 or len(starts) <= 1:
+        parts = [one(i) for i in starts]
+    else:
+        from concurrent.futures import ThreadPoolExecutor
+        with ThreadPoolExecutor(max_workers=workers) as ex:
+            parts = list(ex.map(one, starts))
+    res = []
+    for part in parts:
+        res.extend(part)
     return res
 
 
-def run_model(lines):
+def _run_model_part(lines):
     rc, out, err = run_lines(DRV, lines)
     if rc != 0 or len(out) != len(lines):
         raise RuntimeError("h3drv failed rc=%s out=%d/%d %s" % (rc, len(out), len(lines), err[-400:]))
+    return out
+
+
+def run_model(lines, workers=1):
+    if workers <= 1 or len(lines) < 4000:
+        out = _run_model_part(lines)
+    else:
+        from concurrent.futures import ThreadPoolExecutor
+        n = (len(lines) + workers - 1) // workers
+        chunks = [lines[i:i + n] for i in range(0, len(lines), n)]
+        with ThreadPoolExecutor(max_workers=workers) as ex:
+            parts = list(ex.map(_run_model_part, chunks))
+        out = [o for part in parts for o in part]
     model, spec = [], []
     for o in out:
         if " ## " in o:
@@ -491,13 +531,17 @@ def run_check(prop, tier, seed):
     if ok_h:
         corpus = corpus_lines(prop.id)
         gen = prop.cases(tier, rng)
+        rounds = int(getattr(prop, "thorough_rounds", 1)) if tier == "thorough" else 1
+        for r in range(1, rounds):   # further rounds of the random parts (duplicates are dropped below)
+            gen += prop.cases(tier, random.Random(rng.getrandbits(64) + r))
+        nworkers = workers_for(prop)
         seen = set()
         for l in corpus + gen:
             if l not in seen:
                 seen.add(l)
                 lines.append(l)
         budget = float(os.environ.get("VERIF_IMPL_BUDGET", "2400" if tier == "thorough" else "600"))
-        raw = run_impl(lines, budget)
+        raw = run_impl(lines, budget, nworkers)
         if SKIPPED in raw:
             kept = [i for i, r in enumerate(raw) if r != SKIPPED]
             notes.append("time budget of %.0f s for the implementation run exhausted: %d of %d cases not executed"
@@ -506,7 +550,7 @@ def run_check(prop, tier, seed):
             raw = [raw[i] for i in kept]
         impl = prop.project_all(lines, raw)
         if ok_drv:
-            model, spec = run_model(lines)
+            model, spec = run_model(lines, nworkers)
         else:
             model, spec = ["?"] * len(lines), ["?"] * len(lines)
         for i, l in enumerate(lines):
